@@ -38,6 +38,9 @@ TEXT = {
     "ijmp": {"x64-intel": "jmp rax", "x64-att": "jmp *%rax", "ia32": "jmp *%eax", "arm64": "br x1"},
     "icall": {"x64-intel": "call rax", "x64-att": "call *%rax", "ia32": "call *%eax", "arm64": "blr x1"},
     "lea": {"x64-intel": "lea rax, [rip+{0}]", "x64-att": "leaq {0}(%rip), %rax", "ia32": "movl ${0}, %eax", "arm64": "adrp x0, {0}"},
+    # rip-relative operand followed by an immediate: the displacement is not the last field of the instruction
+    "ripimm": {"x64-intel": "mov dword ptr [rip+{0}], 5", "x64-att": "movl $5, {0}(%rip)"},
+    "ripimm8": {"x64-intel": "cmp byte ptr [rip+{0}+8], 1", "x64-att": "cmpb $1, {0}+8(%rip)"},
     "byte": {"*": ".byte 7"},
     "word": {"x64-intel": ".quad {0}+8", "x64-att": ".quad {0}+8", "ia32": ".long {0}+8", "arm64": ".quad {0}+8"},
     "zero": {"*": ".zero 3"},
@@ -45,11 +48,13 @@ TEXT = {
     "uleb": {"*": ".uleb128 300"},
 }
 MNEMONIC = {"o": {"mov", "add"}, "o2": {"xor", "mov"}, "jmp": {"jmp", "b"}, "jcc": {"jne", "b.ne"}, "call": {"call", "bl"},
-            "ret": {"ret"}, "ijmp": {"jmp", "br"}, "icall": {"call", "blr"}, "lea": {"lea", "mov", "adrp"}}
+            "ret": {"ret"}, "ijmp": {"jmp", "br"}, "icall": {"call", "blr"}, "lea": {"lea", "mov", "adrp"},
+            "ripimm": {"mov"}, "ripimm8": {"cmp"}}
 TRANSFERS = ("jmp", "jcc", "call", "ret", "ijmp", "icall")
 CHUNKS = {"string": 2}  # .string appends the characters and the terminating NUL separately
-CODE = ("o", "o2", "lea") + TRANSFERS
+CODE = ("o", "o2", "lea", "ripimm", "ripimm8") + TRANSFERS
 DATA = ("byte", "word", "zero", "string", "uleb")
+TYPED = ("string", "uleb")
 
 
 def tok(kind, arg=None):
@@ -96,7 +101,10 @@ class Recorder:
             rec.eng.notes["chunks"] = rec.eng.notes.get("chunks", 0) + 1
             name = "c%d" % rec.eng.notes["chunks"]
             if rec.eng.sym:
-                n = rec.eng.int("n%d" % len(rec.eng.vars), len(data), None)
+                if bytes(data) == b"\x00":
+                    n = 1  # the string terminator: the library itself accounts for it with a literal 1
+                else:
+                    n = rec.eng.int("n%d" % len(rec.eng.vars), len(data), None)
                 rec.chunks.append((name, n, bytes(data)))
                 return rec.orig(streamer, Rope.src(name, n), loc)
             rec.chunks.append((name, len(data), bytes(data)))
@@ -136,6 +144,10 @@ def model(prog, chunk_lens, executable, trivially_unreachable, module_symbols):
             continue
         if kind == "raw":
             continue
+        if kind in TYPED:
+            # a value with an encoding sits in a block of its own: split (no fallthrough) before and after it
+            falls[len(raw) - 1] = False
+            new_block()
         n = 0
         for _ in range(CHUNKS.get(kind, 1)):
             n = n + chunk_lens[ci]
@@ -143,6 +155,9 @@ def model(prog, chunk_lens, executable, trivially_unreachable, module_symbols):
         cur["toks"].append((kind, arg, pos, n))
         cur["len"] = cur["len"] + n
         pos = pos + n
+        if kind in TYPED:
+            falls[len(raw) - 1] = False
+            new_block()
         if kind in TRANSFERS:
             i = len(raw) - 1
             if kind == "ret":
@@ -340,7 +355,7 @@ def h_assemble(eng, target, prog, pie, trivially_unreachable, split_at=None):
             n = n + lens[ci]
             real += len(rec.chunks[ci][2])
             ci += 1
-        if kind in ("jmp", "jcc", "call", "lea", "word"):
+        if kind in ("jmp", "jcc", "call", "lea", "word", "ripimm", "ripimm8"):
             want_n += 1
             hits = [(k, e) for k, e in exprs.items() if eng.must(And(k >= pos, k < pos + real))]
             eng.check(len(hits) == 1, "C12 %s %s: %d symbolic expressions inside the instruction" % (kind, arg, len(hits)))
@@ -349,7 +364,7 @@ def h_assemble(eng, target, prog, pie, trivially_unreachable, split_at=None):
             want_sym = local.get(name) or msyms.get(arg)
             eng.check(isinstance(e, gtirb.SymAddrConst) and e.symbol is want_sym,
                       "C12/C13 operand of %s %s does not refer (by identity) to the expected symbol object" % (kind, arg))
-            eng.check(e.offset == (8 if kind == "word" else 0), "C12 operand addend of %s %s is %s" % (kind, arg, e.offset))
+            eng.check(e.offset == (8 if kind in ("word", "ripimm8") else 0), "C12 operand addend of %s %s is %s" % (kind, arg, e.offset))
             is_ext = arg == "ext"
             if isa in (gtirb.Module.ISA.X64, gtirb.Module.ISA.IA32):
                 want_attrs = {A_.PLT} if (pie and is_ext and kind in ("jmp", "jcc", "call")) else set()
@@ -505,6 +520,10 @@ PROGRAMS = {
     "data-fallthrough": [tok("o"), tok("label", "d"), tok("byte"), tok("o2")],
     "mixed": [tok("o"), tok("byte"), tok("o2"), tok("ret"), tok("byte"), tok("label", "q"), tok("zero")],
     "lea-word": [tok("lea", "obj"), tok("o"), tok("lea", "ext"), tok("ret"), tok("word", "ext")],
+    "string-after-code": [tok("o"), tok("string")],
+    "typed-mid": [tok("o"), tok("string"), tok("label", "x"), tok("o2"), tok("string"), tok("byte"), tok("o")],
+    "typed-after-ret": [tok("o"), tok("ret"), tok("label", "s"), tok("string"), tok("string"), tok("label", "t"), tok("byte")],
+    "rip-imm": [tok("ripimm", "obj"), tok("o"), tok("ripimm8", "ext"), tok("ripimm", "ext"), tok("ripimm8", "obj"), tok("ret")],
     "temp": [tok("label", ".Lt"), tok("o"), tok("jcc", ".Lt"), tok("jmp", ".Lu"), tok("label", ".Lu"), tok("o")],
 }
 
@@ -553,6 +572,8 @@ def make_check_C12(tier):
     for target in targets:
         for pname, prog in PROGRAMS.items():
             if target == "arm64" and pname in ("lea-word",):
+                continue
+            if pname == "rip-imm" and not target.startswith("x64"):
                 continue
             for pie in ((True,) if tier == "quick" and pname not in ("jmp-ext", "calls") else (True, False)):
                 for tu in (False, True):
